@@ -40,6 +40,9 @@ struct Scenario {
     mode: String,
     /// per client: `Some(program)` = a real zlink client instead of a byte-level script
     real: Vec<Option<Vec<Exch>>>,
+    /// C18: every transport read yields once before it returns data and never returns more than
+    /// one frame, for every connection alike (see `rule`).
+    yield_first: bool,
 }
 
 /// Payload size for a big `Len` call: around 2^16, around 2^17, tens of kB, and (scripted clients
@@ -141,7 +144,7 @@ fn long_lived_scenario(kind: Kind, w: &mut W) -> Scenario {
     clients.push(ClientSpec { cid: 99, calls: vec![e(false), CallSpec::Fail { oneway: false }, e(false), e(false)], faults: vec![], pingpong: false, closes: false, after_quiet: true });
     let late = vec![None; clients.len()];
     let real = vec![None; clients.len()];
-    Scenario { clients, late, singles: vec![], suspends: false, mode: format!("long-lived server: {n} short-lived connections one after the other, flavour {flavour}"), real }
+    Scenario { yield_first: false, clients, late, singles: vec![], suspends: false, mode: format!("long-lived server: {n} short-lived connections one after the other, flavour {flavour}"), real }
 }
 
 fn gen_scenario(kind: Kind, w: &mut W) -> Scenario {
@@ -154,10 +157,24 @@ fn gen_scenario(kind: Kind, w: &mut W) -> Scenario {
         return long_lived_scenario(kind, w);
     }
     w.cfg = Cfg::swarm(&mut w.tape);
+    w.stream_size_hint = w.tape.draw(3) as u8;
+    let mut yield_first = false;
     if kind == Kind::C18 {
         // a transport that withholds readable bytes makes a call *not* waiting from the server's
         // point of view; flagging that would be a false alarm
         w.cfg.read_pending_despite_data = false;
+        // The cooperative-yield transport is used in one uniform shape only: *every* read of
+        // *every* connection yields once and then returns at most one frame. Then no connection
+        // ever has a second call buffered inside the server, every call needs exactly two polls,
+        // and "has a complete call waiting" still means the same to the monitor and the server.
+        // (Mixed with buffered flooders the yielding caller would lose every race, which the
+        // statement does not clearly forbid.)
+        yield_first = w.tape.draw(4) == 3;
+        w.cfg.read_yields_first = yield_first;
+        if yield_first {
+            // a short read would make one call cost several yielding reads
+            w.cfg.short_read = false;
+        }
     }
     let t = &mut w.tape;
     let suspends = t.draw(3) == 2;
@@ -204,6 +221,12 @@ fn gen_scenario(kind: Kind, w: &mut W) -> Scenario {
                 let mut faults = Vec::new();
                 if kind == Kind::C10 && t.draw(5) == 4 {
                     faults.push(Fault::WriteError { kth: t.draw(6) });
+                }
+                // C08: one scripted client in five ends its script with a message the service
+                // cannot decode; every call in front of it is still owed its answer
+                if kind == Kind::C08 && !calls.is_empty() && t.draw(5) == 4 {
+                    let at = t.draw(calls.len());
+                    faults.push(make_fault([0, 5, 6, 7][t.draw(4)], at, t));
                 }
                 clients.push(ClientSpec { cid: 10 + c as u32, calls, faults, pingpong: t.draw(3) == 2, closes: t.draw(2) == 1, after_quiet: false });
                 late.push(None);
@@ -252,7 +275,7 @@ fn gen_scenario(kind: Kind, w: &mut W) -> Scenario {
                     // single caller: one complete call, appearing once flooder f has been served k replies
                     let f = t.draw(n_flood);
                     let k = t.draw(20);
-                    let call = if scale == 12 || scale == 13 { CallSpec::Len { pad: big_pad(t, scale == 13), oneway: false } } else { CallSpec::Echo { pad: t.draw(8), oneway: false } };
+                    let call = if (scale == 12 || scale == 13) && !yield_first { CallSpec::Len { pad: big_pad(t, scale == 13), oneway: false } } else { CallSpec::Echo { pad: t.draw(8), oneway: false } };
                     clients.push(ClientSpec { cid: 10 + c as u32, calls: vec![call], faults: vec![], pingpong: false, closes: false, after_quiet: false });
                     late.push(Some((f, k)));
                     singles.push(c);
@@ -274,7 +297,7 @@ fn gen_scenario(kind: Kind, w: &mut W) -> Scenario {
     }
     let mode = format!("seeded cfg={:?} service_suspends={suspends}", w.cfg);
     real.resize(clients.len(), None);
-    Scenario { clients, late, singles, suspends, mode, real }
+    Scenario { yield_first, clients, late, singles, suspends, mode, real }
 }
 
 /// Small fixed scenarios whose interleavings are enumerated by the digits that follow on the tape
@@ -289,6 +312,7 @@ fn sys_scenario(kind: Kind, w: &mut W) -> Scenario {
     let mut clients = Vec::new();
     let mut singles = Vec::new();
     let mut late = Vec::new();
+    let mut yield_first = false;
     let spec = t.draw(16);
     match kind {
         Kind::C08 => {
@@ -314,6 +338,7 @@ fn sys_scenario(kind: Kind, w: &mut W) -> Scenario {
             clients.push(ClientSpec { cid: 99, calls: vec![e(false)], faults: vec![], pingpong: false, closes: false, after_quiet: true });
         }
         Kind::C10 => {
+            w.stream_size_hint = ((spec / 6) % 2) as u8;
             let shapes: [&[CallSpec]; 6] = [
                 &[CallSpec::Stream { flags: vec![0, 0], ends: true }, e(false)],
                 &[e(false), CallSpec::Stream { flags: vec![0, 1], ends: true }, e(false), e(false)],
@@ -326,6 +351,7 @@ fn sys_scenario(kind: Kind, w: &mut W) -> Scenario {
             clients.push(ClientSpec { cid: 11, calls: vec![e(false), e(false)], faults: vec![], pingpong: spec % 2 == 1, closes: false, after_quiet: false });
         }
         Kind::C18 => {
+            yield_first = spec >= 4;
             let nf = 1 + spec % 2;
             for c in 0..nf {
                 clients.push(ClientSpec { cid: 10 + c as u32, calls: vec![e(false); 6], faults: vec![], pingpong: false, closes: false, after_quiet: false });
@@ -341,7 +367,7 @@ fn sys_scenario(kind: Kind, w: &mut W) -> Scenario {
         late.push(None);
     }
     let real = vec![None; clients.len()];
-    Scenario { clients, late, singles, suspends: false, mode: format!("systematic spec={spec}"), real }
+    Scenario { yield_first, clients, late, singles, suspends: false, mode: format!("systematic spec={spec}"), real }
 }
 
 impl Prop for ServerProp {
@@ -429,6 +455,11 @@ impl Prop for ServerProp {
             if self.kind == Kind::C18 {
                 for i in 0..infos.len() {
                     w.pipes[infos[i].c2s].chunk_override = Some(Chunk::Whole);
+                    w.pipes[infos[i].c2s].read_cap_frame = sc.yield_first;
+                }
+                if sc.yield_first {
+                    w.cfg.read_yields_first = true;
+                    w.stat("worlds_with_uniform_yield_first_transport");
                 }
             }
             let total: usize = sc.clients.iter().map(|c| c.calls.iter().map(|k| 40 + if let CallSpec::Len { pad, .. } = k { pad / 32 } else { 0 }).sum::<usize>() + 200).sum();
@@ -555,7 +586,26 @@ impl Prop for ServerProp {
                     if frames.len() > reference.len() || frames[..n] != reference[..n] {
                         return Err((format!("{id}/faulty-connection-got-wrong-frames"), format!("client {}: {frames:?}", spec.cid)));
                     }
-                    let _ = (ff, &before);
+                    let _ = ff;
+                }
+                // Whatever ends a connection, a call the service *did* handle on it is owed its
+                // answer as long as the client's transport accepts writes.
+                let no_write_fault = !spec.faults.iter().any(|f| matches!(f, Fault::WriteError { .. }));
+                if no_write_fault {
+                    let h = handled.len();
+                    let want_handled: Vec<u32> = (0..h as u32).collect();
+                    if handled != want_handled {
+                        return Err((format!("{id}/call-not-handled-exactly-once-in-order"), format!("client {} (faults {:?}): service saw calls {handled:?}", spec.cid, spec.faults)));
+                    }
+                    if let Some(owed) = before.get(h) {
+                        if frames.len() < *owed {
+                            return Err((
+                                format!("{id}/reply-missing-at-quiescence"),
+                                format!("client {} (calls {:?}, faults {:?}): the service handled its first {h} calls, which owe {owed} frames, but only {} arrived before the connection ended although its transport accepted every write", spec.cid, spec.calls, spec.faults, frames.len()),
+                            ));
+                        }
+                        world.borrow_mut().stat("probe.answers_in_front_of_a_fault_all_delivered");
+                    }
                 }
             }
             let _ = ci;
@@ -677,8 +727,8 @@ impl Prop for ServerProp {
             (Kind::C08, Tier::Thorough) => (12, 9, 3),
             (Kind::C10, Tier::Quick) => (12, 7, 3),
             (Kind::C10, Tier::Thorough) => (12, 9, 3),
-            (Kind::C18, Tier::Quick) => (4, 7, 3),
-            (Kind::C18, Tier::Thorough) => (4, 9, 3),
+            (Kind::C18, Tier::Quick) => (8, 7, 3),
+            (Kind::C18, Tier::Thorough) => (8, 9, 3),
             (Kind::C09, Tier::Quick) => (2, 6, 3),
             (Kind::C09, Tier::Thorough) => (2, 8, 3),
         };
